@@ -269,6 +269,9 @@ func (g *gen) uname(prefix string) string {
 	}
 	g.uniq++
 	n := fmt.Sprintf("%s%d %s", prefix, g.uniq, g.word(1, 5))
+	if g.o.Special && g.r.chance(12) { // a name is legal with a line break, also one followed by block syntax
+		n += []string{"\n## second line", "\r\nsecond", "\n---", "\nsecond line", "\r- x"}[g.r.below(5)]
+	}
 	if g.last == nil {
 		g.last = map[string]string{}
 	}
